@@ -155,10 +155,7 @@ func (fr *Frame) execInstr(ins ssa.Instruction) {
 }
 
 func (fr *Frame) noteAlloc(slotsTerm string) {
-	cur, ok := fr.st.ghost["$alloc"]
-	if !ok {
-		cur = "0"
-	}
+	cur := fr.ghostGet("$alloc")
 	fr.st.ghost["$alloc"] = fr.vc.define("g_alloc", "Int", add(cur, slotsTerm))
 }
 
